@@ -238,8 +238,12 @@ func cycleCorpus(emit func(l geom.Geom, p geom.Geom)) {
 }
 
 // manyMembers: one short member per column, every one with an inside part of a different length.
-func manyMembers(r *vproto.Rng, emit func(l geom.Geom, p geom.Geom)) {
-	for ci, n := range []int{63, 64, 65, 66, 127, 128, 129, 130, 200, 257, 1025} {
+func manyMembers(r *vproto.Rng, tier string, emit func(l geom.Geom, p geom.Geom)) {
+	counts := []int{63, 64, 65, 66, 127, 128, 129, 130, 257}
+	if tier == "thorough" {
+		counts = append(counts, 200, 513, 1025, 2049)
+	}
+	for ci, n := range counts {
 		ml := make(geom.MultiLineString, n)
 		top := 2*float64(n) + 20.5
 		for i := range ml {
